@@ -11,7 +11,7 @@ L3: the property statement evaluated directly on the implementation, no Lean inv
     the requested number of individuals, statistics recomputed from the columns (pairwise differences by brute force,
     Tajima 1989, Weir & Cockerham 1984 eqs. 2-4 with the random-mating closure).
 """
-import os, math, itertools, tempfile, shutil, random as pyrandom
+import os, math, itertools, tempfile, shutil, warnings, functools, operator, random as pyrandom
 from fractions import Fraction
 import numpy as np
 from . import common
@@ -410,6 +410,115 @@ def fst_direct(mcols, ns):
         A += a; BC += c
     return A, BC
 
+
+# ------------------------------------------------------------------------------------------------ statistics do not touch the spectrum
+# every method of Spectrum that computes a statistic ...
+STATS_1D = ('S', 'Watterson_theta', 'theta_L', 'pi', 'Tajima_D', 'Zengs_E')
+STATS_ND = ('S', 'Fst')
+# ... or another quantity derived from it (the result is a new object / a number; the receiver must stay as it was)
+DERIVED = ('sample_sizes', 'Npop', 'fold', 'project', 'marginalize')
+
+def fs_state(fs):
+    """everything a Spectrum consists of: data, mask, folded flag, labels, shape"""
+    return dict(shape=tuple(fs.shape), data=np.array(np.asarray(fs.data), dtype=float, copy=True),
+                mask=np.array(np.ma.getmaskarray(fs), copy=True), folded=bool(fs.folded),
+                pop_ids=None if fs.pop_ids is None else [str(x) for x in fs.pop_ids])
+
+def state_diff(a, b):
+    out = []
+    if a['shape'] != b['shape']: return ['shape']
+    if not np.array_equal(a['data'], b['data'], equal_nan=True): out.append('data')
+    if not np.array_equal(a['mask'], b['mask']): out.append('mask')
+    if a['folded'] != b['folded']: out.append('folded')
+    if a['pop_ids'] != b['pop_ids']: out.append('pop_ids')
+    return out
+
+def restore_state(fs, st):
+    try:
+        fs.data[...] = st['data']; fs.mask = st['mask'].copy(); fs.folded = st['folded']; fs.pop_ids = st['pop_ids']
+    except Exception:
+        pass
+
+def call_quiet(fs, name):
+    """call a statistic / derived-quantity method; (value or None, name of the exception or None)"""
+    try:
+        with np.errstate(all='ignore'), warnings.catch_warnings():
+            warnings.simplefilter('ignore')
+            if name in ('sample_sizes', 'Npop'): v = getattr(fs, name)
+            elif name == 'project': v = fs.project([max(int(n) - 1, 1) for n in fs.sample_sizes])
+            elif name == 'marginalize': v = fs.marginalize([0])
+            else: v = getattr(fs, name)()
+        return v, None
+    except Exception as e:
+        return None, type(e).__name__
+
+def stat_methods(fs):
+    return STATS_1D if fs.ndim == 1 else STATS_ND
+
+def stat_values(fs):
+    """the statistics of a spectrum as floats (nan where undefined / raising); calls every statistic method on `fs` itself"""
+    out = {}
+    for m in stat_methods(fs):
+        v, exc = call_quiet(fs, m)
+        try:
+            out[m] = float('nan') if (exc is not None or v is np.ma.masked) else float(v)
+        except Exception:
+            out[m] = float('nan')
+    return out
+
+def values_agree(a, b, rtol=1e-8):
+    bad = []
+    sc = max([abs(v) for v in list(a.values()) + list(b.values()) if math.isfinite(v)] + [1.0])
+    for k in a:
+        x, y = a[k], b[k]
+        if math.isfinite(x) != math.isfinite(y) or (math.isfinite(x) and abs(x - y) > rtol * sc): bad.append(k)
+    return bad
+
+def corner_state(fs):
+    """(corner entries hold SNPs, corner entries masked) -- what makes a purity case non-trivial"""
+    d = np.asarray(fs.data); m = np.ma.getmaskarray(fs)
+    return bool(d.flat[0] != 0 or d.flat[-1] != 0), bool(m.flat[0] and m.flat[-1])
+
+def check_pure(chk, ds, fs, at, tag, derived=True):
+    """the clause behind every multi-step use of a spectrum: computing a statistic (or another derived quantity) on a spectrum
+    leaves that spectrum -- data, mask, folded flag, labels -- exactly as it was.  Called on the SAME object whose total /
+    entries / chunk sums are (re-)checked afterwards."""
+    meths = list(stat_methods(fs))
+    if derived:
+        meths += [m for m in DERIVED if not (m == 'fold' and fs.folded) and not (m in ('project',) and fs.folded)
+                  and not (m == 'marginalize' and fs.ndim < 2)]
+    populated, masked = corner_state(fs)
+    chk.stat('pure:corners=%s,%s' % ('populated' if populated else 'empty', 'masked' if masked else 'unmasked'))
+    for m in meths:
+        st0 = fs_state(fs)
+        v, exc = call_quiet(fs, m)
+        chk.l3(('pure', tag, m, fs.ndim, st0['folded'], populated, masked, exc is None))
+        d = state_diff(st0, fs_state(fs))
+        if d:
+            what = []
+            if 'mask' in d:
+                st1 = fs_state(fs)
+                ch = np.argwhere(st0['mask'] != st1['mask'])
+                what.append('mask changed at %s' % [tuple(int(x) for x in c) for c in ch[:4]])
+            if 'data' in d: what.append('data changed')
+            what += [x for x in d if x not in ('mask', 'data')]
+            chk.fail('statistics:mutates:%s:%s' % (m, '+'.join(d)),
+                     'calling %s on a spectrum (shape %s, folded=%s, corners %s and %s) changed the spectrum itself: %s; its total, entries and sums with other spectra are no longer those of the data'
+                     % (m, st0['shape'], st0['folded'], 'populated' if populated else 'empty', 'masked' if masked else 'unmasked', '; '.join(what)),
+                     dict(kind=ds['kind'], dataset=ds, at=dict(at, method=m, stage_pure=tag)))
+            restore_state(fs, st0)               # so that the next method is judged on its own
+
+def masked_total(fs):
+    s = fs.sum()
+    return 0.0 if s is np.ma.masked else float(s)
+
+def ref_total(ref, mask):
+    """exact sum of the oracle's entries that the mask leaves visible"""
+    tot = Fraction(0)
+    for x, m in zip(np.asarray(ref, dtype=object).ravel(), np.asarray(mask).ravel()):
+        if not m: tot += x
+    return tot
+
 # ------------------------------------------------------------------------------------------------ the checks on one dataset
 def small(ds):
     return ds
@@ -494,8 +603,33 @@ def check_stats(chk, ctx, ds, fs, snps_w, pol, proj, cfgtag):
             elif scalar_close(F, mf, rtol=1e-8, scale=1.0): chk.k_ok('fst')
             else: kbad(chk, 'fst', ds, F, mf, None, cfgtag)
 
+def spectrum_clauses(chk, fs, fs_nomask, ref, usable, names, proj, pol, mc, tag, inp, phase):
+    """the clauses of the statement about one spectrum, evaluated on the two objects `fs` (corners masked as the configuration
+    asks) and `fs_nomask` (mask_corners=False).  phase '' = freshly built, ':after-statistics' = the same objects again after
+    every statistic has been computed on them."""
+    for obj, omc in ((fs, mc), (fs_nomask, False)):
+        ok, err, scale = unmasked_close(obj, ref)
+        if not ok:
+            chk.fail('from_data_dict:%s:spectrum%s' % (tag, phase), 'spectrum (mask_corners=%s) differs from the sum of hypergeometric projections of the usable SNPs by %.3g (scale %.3g), polarized=%s' % (omc, err, scale, pol), inp)
+        em = expected_mask(proj, pol, omc)
+        if not np.array_equal(np.ma.getmaskarray(obj), em):
+            chk.fail('from_data_dict:%s:mask%s' % (tag, phase), 'mask (mask_corners=%s) is not (corners if requested) + (folded-out half if unpolarised): entries %s differ'
+                     % (omc, [tuple(int(x) for x in c) for c in np.argwhere(np.ma.getmaskarray(obj) != em)[:4]]), inp)
+        if obj.folded != (not pol) or (obj.pop_ids is not None and list(obj.pop_ids) != names):
+            chk.fail('from_data_dict:%s:flags%s' % (tag, phase), 'folded flag / pop_ids wrong: folded=%s pop_ids=%s' % (obj.folded, obj.pop_ids), inp)
+        # the total the user sees (masked sum) = the exact total of the visible entries; with nothing masked = number of usable SNPs
+        want = ref_total(ref, em)
+        got = masked_total(obj)
+        if abs(got - float(want)) > 1e-9 * max(usable, 1):
+            chk.fail('from_data_dict:%s:visible-total%s' % (tag, phase), 'fs.sum() (mask_corners=%s, polarized=%s) is %.12g, the usable SNPs outside the entries that should be masked add up to %.12g (%d usable SNPs in all)'
+                     % (omc, pol, got, float(want), usable), inp)
+    tot = float(np.sum(fs_nomask.data))
+    if abs(tot - usable) > 1e-9 * max(usable, 1):
+        chk.fail('from_data_dict:%s:total%s' % (tag, phase), 'total %.12g != number of usable SNPs %d' % (tot, usable), inp)
+
 def check_spectra(chk, ctx, ds, dd, entries_oracle, model_entries, pop_names_all, tag):
-    """from_data_dict for every configuration: K (spec) + L3 (oracle, total) + statistics"""
+    """from_data_dict for every configuration: K (spec) + L3 (oracle, total) + statistics, then the same clauses again on the
+    same objects (statistics must not have changed them)"""
     dadi = ctx['dadi']
     for ci, cfg in enumerate(ds['params']['configs']):
         sel, proj, pol, mc = cfg['sel'], cfg['proj'], cfg['polarized'], cfg['mask_corners']
@@ -509,18 +643,11 @@ def check_spectra(chk, ctx, ds, dd, entries_oracle, model_entries, pop_names_all
             chk.fail('from_data_dict:%s:raises:%s' % (tag, type(e).__name__), 'from_data_dict raises %r' % (e,), inp); continue
         # ---- L3: direct counting
         ref, usable = oracle_spectrum(entries_oracle, names, proj, pol)
-        chk.l3((tag, len(sel), pol, mc, tuple(min(p, 3) for p in proj), usable > 0, usable < len(entries_oracle)))
-        ok, err, scale = unmasked_close(fs, ref)
-        if not ok:
-            chk.fail('from_data_dict:%s:spectrum' % tag, 'spectrum differs from the sum of hypergeometric projections of the usable SNPs by %.3g (scale %.3g), polarized=%s' % (err, scale, pol), inp)
-        if not np.array_equal(np.ma.getmaskarray(fs), expected_mask(proj, pol, mc)):
-            chk.fail('from_data_dict:%s:mask' % tag, 'mask is not (corners if requested) + (folded-out half if unpolarised)', inp)
-        if fs.folded != (not pol) or (fs.pop_ids is not None and list(fs.pop_ids) != names):
-            chk.fail('from_data_dict:%s:flags' % tag, 'folded flag / pop_ids wrong: folded=%s pop_ids=%s' % (fs.folded, fs.pop_ids), inp)
-        tot = float(np.sum(fs_nomask.data))
-        if abs(tot - usable) > 1e-9 * max(usable, 1):
-            chk.fail('from_data_dict:%s:total' % tag, 'total %.12g != number of usable SNPs %d' % (tot, usable), inp)
+        populated = bool(ref.flat[0] != 0 or ref.flat[-1] != 0)
+        chk.l3((tag, len(sel), pol, mc, tuple(min(p, 3) for p in proj), usable > 0, usable < len(entries_oracle), populated))
+        spectrum_clauses(chk, fs, fs_nomask, ref, usable, names, proj, pol, mc, tag, inp, '')
         chk.stat('cfg:npop=%d' % len(sel)); chk.stat('cfg:polarized=%s' % pol); chk.stat('cfg:usable=%s' % ('none' if usable == 0 else 'all' if usable == len(entries_oracle) else 'some'))
+        chk.stat('cfg:corner-entries=%s' % ('populated' if populated else 'empty'))
         # ---- K
         if have_driver(ctx) and model_entries is not None:
             sub = [dict(e, calls=[e['calls'][p] for p in sel]) for e in model_entries]
@@ -531,6 +658,28 @@ def check_spectra(chk, ctx, ds, dd, entries_oracle, model_entries, pop_names_all
                 if int(toks[2]) != usable or Fraction(toks[3]) != usable:
                     kbad(chk, 'spec:usable', ds, usable, toks[2:4], None, at)
             check_stats(chk, ctx, ds, fs, w, pol, proj, at)
+        # ---- the statistics, on the very objects whose clauses were just evaluated ...
+        va = stat_values(fs); vb = stat_values(fs_nomask)
+        bad = values_agree(va, vb)
+        if bad:
+            chk.fail('stats:depend-on-corner-mask:%s' % '+'.join(bad), 'statistics of the same data differ between mask_corners=%s and mask_corners=False: %r vs %r' % (mc, va, vb), inp)
+        check_pure(chk, ds, fs, at, tag); check_pure(chk, ds, fs_nomask, at, tag + ':nomask')
+        check_mask_after_S(chk, ctx, ds, fs_nomask, pol, False, proj, at)
+        # ---- ... and the clauses again
+        spectrum_clauses(chk, fs, fs_nomask, ref, usable, names, proj, pol, mc, tag, inp, ':after-statistics')
+
+def check_mask_after_S(chk, ctx, ds, fs, pol, mc, proj, at):
+    """K for the state left behind by `S` (generated statement list `sBody` run by the model's `sRun`)"""
+    if not have_driver(ctx): return
+    call_quiet(fs, 'S')
+    out = ask(ctx, 'sstate %d %d %s' % (pol, mc, ','.join(map(str, proj))))
+    imask = np.asarray(np.ma.getmaskarray(fs))
+    if out.startswith('ok '):
+        mmask = nd_float(out[3:].strip()).astype(bool)
+        if mmask.shape == imask.shape and np.array_equal(mmask, imask): chk.k_ok('sstate')
+        else: kbad(chk, 'sstate', ds, imask, mmask, None, at)
+    else:
+        kbad(chk, 'sstate', ds, imask, out, None, at)
 
 def impl_entries(dd, pop_names, codes):
     return [entry_of_impl(k, v, pop_names, codes) for k, v in dd.items()]
@@ -579,6 +728,35 @@ def check_chunks(chk, ctx, ds, dd, model_entries, pop_names_all, codes, tag):
     ok, err, scale = close(ssum, np.asarray(whole.data), rtol=RTOL)
     if not ok:
         chk.fail('fragment_data_dict:%s:additive' % tag, 'chunk spectra do not add up to the whole (err %.3g, scale %.3g)' % (err, scale), inp)
+    # the same clause the way a user evaluates it (spectra added as spectra, totals by .sum()), before and after statistics have been
+    # computed on every chunk spectrum and on the whole -- on the same objects
+    em = expected_mask(proj, pol, False)
+    chunk_totals = [float(np.sum(np.asarray(p.data)[~em])) for p in parts]
+    whole_total = float(np.sum(np.asarray(whole.data)[~em]))
+    for phase in ('', ':after-statistics'):
+        if phase:
+            for i, p in enumerate(parts + [whole]):
+                if i < 2 or i == len(parts): check_pure(chk, ds, p, at, tag + ':chunk', derived=False)
+                else: stat_values(p)
+        chk.l3((tag, 'chunk-sum', phase, len(parts) > 1, pol, bool(whole.data.flat[0] != 0 or whole.data.flat[-1] != 0)))
+        scale = max(whole_total, 1.0)
+        got = [masked_total(p) for p in parts]
+        if any(abs(a - b) > 1e-9 * scale for a, b in zip(got, chunk_totals)):
+            k = [i for i, (a, b) in enumerate(zip(got, chunk_totals)) if abs(a - b) > 1e-9 * scale][0]
+            chk.fail('fragment_data_dict:%s:chunk-total%s' % (tag, phase), 'chunk %d of %d: .sum() of its spectrum (mask_corners=False, polarized=%s) is %.12g, its SNPs contribute %.12g'
+                     % (k, len(parts), pol, got[k], chunk_totals[k]), inp)
+        if abs(masked_total(whole) - whole_total) > 1e-9 * scale or abs(sum(got) - masked_total(whole)) > 1e-9 * scale:
+            chk.fail('fragment_data_dict:%s:totals-additive%s' % (tag, phase), 'chunk totals add up to %.12g, the whole data set gives %.12g (expected %.12g)' % (sum(got), masked_total(whole), whole_total), inp)
+        if parts:
+            try:
+                added = functools.reduce(operator.add, parts)
+            except Exception as e:
+                chk.fail('fragment_data_dict:%s:add-raises:%s%s' % (tag, type(e).__name__, phase), 'adding the chunk spectra raises %r' % (e,), inp); continue
+            am = np.asarray(np.ma.getmaskarray(added)); wm = np.asarray(np.ma.getmaskarray(whole))
+            okk, e, sc = close(np.asarray(added.data)[~em], np.asarray(whole.data)[~em], rtol=RTOL)
+            if not np.array_equal(am, em) or not np.array_equal(wm, em) or not okk:
+                chk.fail('fragment_data_dict:%s:sum-of-spectra%s' % (tag, phase), 'the sum of the chunk spectra is not the spectrum of the whole: masks differ from the expected one at %s (sum) / %s (whole), visible entries differ by %.3g'
+                         % ([tuple(int(x) for x in c) for c in np.argwhere(am != em)[:4]], [tuple(int(x) for x in c) for c in np.argwhere(wm != em)[:4]], e), inp)
     chk.stat('chunks:n=%s' % ('1' if len(frags) == 1 else '2-5' if len(frags) <= 5 else '6+'))
     # ---- K: chunk membership and order, chunk spectra
     sub = None
@@ -638,6 +816,13 @@ def check_chunks(chk, ctx, ds, dd, model_entries, pop_names_all, codes, tag):
         okk, e, sc = close(np.asarray(b.data)[vis], ref[vis], rtol=RTOL)
         if not okk or not np.array_equal(np.ma.getmaskarray(b), expected_mask(proj, pol, mc)) or b.folded != (not pol):
             chk.fail('bootstraps_from_dd_chunks:%s:sum' % tag, 'a bootstrap is not the sum of its chosen chunk spectra (err %.3g) / wrong mask or folded flag' % e,
+                     dict(inp, choice=r)); break
+        # ... and still is after statistics have been computed on it
+        check_pure(chk, ds, b, dict(at, choice=r), tag + ':boot', derived=False)
+        vis = ~np.asarray(np.ma.getmaskarray(b))
+        okk, e, sc = close(np.asarray(b.data)[vis], ref[vis], rtol=RTOL)
+        if not okk or not np.array_equal(np.ma.getmaskarray(b), expected_mask(proj, pol, mc)) or b.folded != (not pol):
+            chk.fail('bootstraps_from_dd_chunks:%s:sum:after-statistics' % tag, 'after computing statistics on it a bootstrap is no longer the sum of its chosen chunk spectra (err %.3g) / wrong mask or folded flag' % e,
                      dict(inp, choice=r)); break
         if have_driver(ctx) and sub is not None:
             out = ask(ctx, 'boot %d %d %d %s %s %s' % (size, pol, mc, ','.join(map(str, proj)), ','.join(map(str, r)) if r else '-', snps_wire(sub)))
@@ -1003,23 +1188,53 @@ def check_full_dataset(chk, ctx, ds):
         for pi_, p in enumerate(pops):
             n = ns[pi_]
             cols = [c[pi_] for c in mcols]
-            try:
-                fs = dadi.Spectrum.from_data_dict(dd, [p], [n], mask_corners=bool(ds['params']['configs'][0]['mask_corners']), polarized=True)
-                got = dict(S=float(fs.S()), pi=float(fs.pi()), W=float(fs.Watterson_theta()), thetaL=float(fs.theta_L()))
-                with np.errstate(all='ignore'):
-                    D = float(fs.Tajima_D())
-            except Exception as e:
-                chk.fail('stats:full:raises:%s' % type(e).__name__, 'statistics raise %r' % (e,), inp); continue
+            # direct count: entry k = number of columns with k derived alleles (corner entries included: columns that are
+            # monomorphic in this population are SNPs of the data set all the same)
+            hist = np.bincount([sum(c) for c in cols], minlength=n + 1).astype(float)
             ref = stats_direct(cols, n)
-            chk.l3(('stats1', n, ref['S'] > 0))
             sc = max(float(ref['S']), 1.0)
-            for k in ('S', 'pi', 'W', 'thetaL'):
-                if not scalar_close(got[k], ref[k], scale=sc):
-                    chk.fail('stats:%s' % k, '%s from the spectrum %.12g != %.12g counted on the genotype matrix (n=%d)' % (k, got[k], float(ref[k]), n), inp)
-            if ref['var'] > 0:
-                Dref = float(ref['pi'] - ref['W']) / math.sqrt(float(ref['var']))
-                if not scalar_close(D, Dref, rtol=1e-8, scale=abs(float(ref['pi']) + float(ref['W'])) / math.sqrt(float(ref['var']))):
-                    chk.fail('stats:Tajima_D', "Tajima's D %.12g != %.12g from counted S and pi (n=%d)" % (D, Dref, n), inp)
+            mc0 = bool(ds['params']['configs'][0]['mask_corners'])
+            fs = None; D = float('nan'); failed = False
+            # the whole sequence on one object, for a spectrum with and one without masked corners:
+            # build -> entries / total -> statistics -> entries / total again
+            for omc in (mc0, not mc0):
+                try:
+                    obj = dadi.Spectrum.from_data_dict(dd, [p], [n], mask_corners=omc, polarized=True)
+                except Exception as e:
+                    chk.fail('stats:full:raises:%s' % type(e).__name__, 'from_data_dict raises %r' % (e,), inp); failed = True; break
+                populated = bool(hist[0] != 0 or hist[-1] != 0)
+                chk.stat('full:corner-entries=%s' % ('populated' if populated else 'empty'))
+                for phase in ('', ':after-statistics'):
+                    if phase:
+                        try:
+                            got = dict(S=float(obj.S()), pi=float(obj.pi()), W=float(obj.Watterson_theta()), thetaL=float(obj.theta_L()))
+                            with np.errstate(all='ignore'):
+                                Dv = float(obj.Tajima_D())
+                        except Exception as e:
+                            chk.fail('stats:full:raises:%s' % type(e).__name__, 'statistics raise %r' % (e,), inp); failed = True; break
+                        chk.l3(('stats1', n, ref['S'] > 0, omc, populated))
+                        for k in ('S', 'pi', 'W', 'thetaL'):
+                            if not scalar_close(got[k], ref[k], scale=sc):
+                                chk.fail('stats:%s' % k, '%s from the spectrum %.12g != %.12g counted on the genotype matrix (n=%d, mask_corners=%s)' % (k, got[k], float(ref[k]), n, omc), inp)
+                        if ref['var'] > 0:
+                            Dref = float(ref['pi'] - ref['W']) / math.sqrt(float(ref['var']))
+                            if not scalar_close(Dv, Dref, rtol=1e-8, scale=abs(float(ref['pi']) + float(ref['W'])) / math.sqrt(float(ref['var']))):
+                                chk.fail('stats:Tajima_D', "Tajima's D %.12g != %.12g from counted S and pi (n=%d, mask_corners=%s)" % (Dv, Dref, n, omc), inp)
+                        check_pure(chk, ds, obj, dict(stage='full', pop=p, mask_corners=omc), 'full')
+                        if omc == mc0: D = Dv
+                    chk.l3(('direct-count', n, omc, populated, phase))
+                    em = expected_mask([n], True, omc)
+                    okk, err, scale = unmasked_close(obj, hist)
+                    if not okk or not np.array_equal(np.ma.getmaskarray(obj), em):
+                        chk.fail('from_data_dict:full:entries%s' % phase, 'complete data, mask_corners=%s: the spectrum is not the number of columns per derived-allele count %s: visible entries differ by %.3g, mask differs at %s'
+                                 % (omc, hist.tolist(), err, [int(c[0]) for c in np.argwhere(np.ma.getmaskarray(obj) != em)[:4]]), inp)
+                    want = float(np.sum(hist[~em]))
+                    if abs(masked_total(obj) - want) > 1e-9 * max(want, 1.0):
+                        chk.fail('from_data_dict:full:total%s' % phase, 'complete data, mask_corners=%s: fs.sum() = %.12g, the matrix has %g SNP columns outside the masked entries (%d in all)'
+                                 % (omc, masked_total(obj), want, len(cols)), inp)
+                if failed: break
+                if omc == mc0: fs = obj
+            if failed or fs is None: continue
             # pi survives projection (C13_pi_projection): project to a random m >= 2 and compare with the pairwise differences of the full matrix
             m = 2 + (ds['params']['bootseed'] + pi_) % (n - 1)
             try:
@@ -1048,18 +1263,37 @@ def check_full_dataset(chk, ctx, ds):
                 else:
                     kbad(chk, 'direct1', ds, None, out, None, dict(stage='full', pop=p))
         if len(pops) >= 2 and int(np.prod([n + 1 for n in ns])) <= 9000:
-            try:
-                fs = dadi.Spectrum.from_data_dict(dd, pops, ns, mask_corners=True, polarized=True)
-                with np.errstate(all='ignore'):
-                    F = float(fs.Fst())
-            except Exception as e:
-                chk.fail('Fst:full:raises:%s' % type(e).__name__, 'Fst raises %r' % (e,), inp); return
             A, BC = fst_direct(mcols, ns)
-            chk.l3(('fst', len(pops), A + BC != 0))
+            histn = np.zeros(tuple(n + 1 for n in ns))
+            for cols in mcols:
+                histn[tuple(sum(c) for c in cols)] += 1
+            populated = bool(histn.flat[0] != 0 or histn.flat[-1] != 0)
+            F = float('nan')
+            for omc in (True, False):
+                try:
+                    obj = dadi.Spectrum.from_data_dict(dd, pops, ns, mask_corners=omc, polarized=True)
+                except Exception as e:
+                    chk.fail('Fst:full:raises:%s' % type(e).__name__, 'from_data_dict raises %r' % (e,), inp); return
+                em = expected_mask(ns, True, omc)
+                for phase in ('', ':after-statistics'):
+                    if phase:
+                        try:
+                            with np.errstate(all='ignore'):
+                                Fv = float(obj.Fst())
+                        except Exception as e:
+                            chk.fail('Fst:full:raises:%s' % type(e).__name__, 'Fst raises %r' % (e,), inp); return
+                        chk.l3(('fst', len(pops), A + BC != 0, omc, populated))
+                        if A + BC != 0 and not scalar_close(Fv, A / (A + BC), rtol=1e-8, scale=1.0):
+                            chk.fail('stats:Fst', 'Fst from the spectrum (mask_corners=%s) %.12g != %.12g from Weir-Cockerham sums over the SNPs' % (omc, Fv, float(A / (A + BC))), inp)
+                        check_pure(chk, ds, obj, dict(stage='full', mask_corners=omc), 'full:nd')
+                        if omc: F = Fv
+                    okk, err, scale = unmasked_close(obj, histn)
+                    want = float(np.sum(histn[~em]))
+                    if not okk or not np.array_equal(np.ma.getmaskarray(obj), em) or abs(masked_total(obj) - want) > 1e-9 * max(want, 1.0):
+                        chk.fail('from_data_dict:full:entries-nd%s' % phase, 'complete data, %d populations, mask_corners=%s: the spectrum is not the count of columns per derived-count vector (visible entries differ by %.3g, mask differs at %s, fs.sum() = %.12g vs %g)'
+                                 % (len(pops), omc, err, [tuple(int(x) for x in c) for c in np.argwhere(np.ma.getmaskarray(obj) != em)[:4]], masked_total(obj), want), inp)
             if A + BC != 0:
                 Fref = A / (A + BC)
-                if not scalar_close(F, Fref, rtol=1e-8, scale=1.0):
-                    chk.fail('stats:Fst', 'Fst from the spectrum %.12g != %.12g from Weir-Cockerham sums over the SNPs' % (F, float(Fref)), inp)
                 if have_driver(ctx):
                     mw = ';'.join('|'.join(''.join(map(str, c)) for c in cols) for cols in mcols)
                     out = ask(ctx, 'direct_fst %s %s' % (','.join(map(str, ns)), mw))
@@ -1177,7 +1411,7 @@ def run(chk, ctx):
     check_weights(chk, ctx, rng, 60 if tier == 'quick' else 600)
     if have_driver(ctx):
         out = ask(ctx, 'shapes13')
-        if out.strip() == 'ok 1 1 1 1 1 1 1 1 1': chk.k_ok('shapes13')
+        if out.strip() == 'ok 1 1 1 1 1 1 1 1 1 1': chk.k_ok('shapes13')
         else: chk.k_bad('shapes13', dict(kind='shapes'), None, out, None)
     for it in range(nv):
         check_dataset(chk, ctx, gen_dataset(rng, tier, 'vcf'), rng)
